@@ -9,6 +9,7 @@ from props import common as K
 
 META = {
     "level": "other",
+    "technique": "static analysis of type-checked MIR (rustc_private driver): construction-site enumeration, byte-class extraction by abstract interpretation, must-pass rules, sibling rule on case-fold boundaries, separator dominance rule",
     "explanation": "Construction-site enumeration for Rsync/Https (all literals go through the validating constructors or copy "
                    "validated offsets), byte-class extraction of the permitted URI characters, must-pass rules for the "
                    "character and path checks on every caller-supplied byte, a sibling rule that every case-insensitive "
